@@ -120,6 +120,9 @@ fn worker(args: &[String]) -> i32 {
             agg.rep.first_seed = agg.rep.first_seed.min(seed);
             agg.rep.last_seed = seed;
             let p = plan::gen(&job.kind, seed, idx, thorough);
+            if let Ok(mut g) = sched::CURRENT_RUN.lock() {
+                *g = format!("job={} idx={idx} seed={seed} thorough={thorough}", job.name);
+            }
             let mut out = plan::exec(&p);
             // determinism sample: every so often a run is executed twice; the digests of the full
             // event logs must agree (a mismatch is a harness error, never a violation)
